@@ -18,6 +18,9 @@ func init() {
 			a.c10KDF("K.kdf")
 			a.c10MACs("K.mac")
 			a.c10Cipher("K.cipher")
+			a.cipherBuffers("K.cipher-buffers")
+			a.c14Sender()
+			a.signatureLayout("K.signature")
 			a.c10Text("K.text")
 			a.c10SMPIndices("K.smp-indices")
 			a.groupConstants("K.group")
@@ -483,4 +486,112 @@ func (a *An) c10ReplyTag(rule string) {
 			"a store to theirInstanceTag can precede the dispatch: replies generated while handling the message are addressed with a stale receiver tag")
 	}
 	a.R.Check(len(dispatch) == 2, rule, "receiveDecoded|dispatch", "two dispatch sites", a.C.Pos(fn.Pos()), fmt.Sprintf("%d", len(dispatch)))
+}
+
+// cipherBuffers: the stream cipher is applied to buffers of equal length: at every (transitive) use of counterEncipher
+// the destination is the source itself (in place) or a fresh buffer made with the length of the source. A destination
+// of any other size leaves trailing bytes that the reader then hashes or parses (or loses the tail of the text).
+func (a *An) cipherBuffers(rule string) {
+	R := a.R
+	prim := a.MustFn("counterEncipher")
+	if prim == nil {
+		return
+	}
+	n := 0
+	var check func(call ssa.CallInstruction, src, dst ssa.Value, depth int)
+	check = func(call ssa.CallInstruction, src, dst ssa.Value, depth int) {
+		f := call.Parent()
+		ps, srcIsP := src.(*ssa.Parameter)
+		pd, dstIsP := dst.(*ssa.Parameter)
+		if srcIsP && dstIsP && depth < 3 {
+			if ps == pd {
+				n++
+				R.Ok(rule, a.C.Name(f)+"|in-place", "in place", a.C.InstrPos(call))
+				return
+			}
+			for _, cs := range a.CallSites(f) {
+				args := cs.Common().Args
+				check(cs, args[paramIndex(ps)], args[paramIndex(pd)], depth+1)
+			}
+			return
+		}
+		n++
+		good := src == dst
+		if mk, ok := dst.(*ssa.MakeSlice); ok {
+			good = a.C.Term(mk.Len) == "len("+a.C.Term(src)+")"
+		}
+		R.Check(good, rule, a.C.Name(f)+"|"+a.F.callName(call), "cipher output buffer has exactly the length of the input (same buffer, or make([]byte, len(input)))", a.C.InstrPos(call),
+			"destination "+a.C.Term(dst)+" for source "+a.C.Term(src)+": the lengths are not tied together")
+	}
+	for _, cs := range a.CallSites(prim) {
+		args := cs.Common().Args
+		check(cs, args[2], args[3], 0)
+	}
+	R.Check(n >= 4, rule, "sites", "cipher applications found", "", fmt.Sprintf("%d", n))
+}
+
+// signatureLayout: a DSA signature goes on the wire as two 20-byte big-endian fields r ‖ s, each left-padded on its
+// own: Sign copies r.Bytes() so that it ends at offset 20 and s.Bytes() so that it ends at offset 40 of a zeroed
+// 40-byte buffer; Verify reads [0:20] and [20:40].
+func (a *An) signatureLayout(rule string) {
+	R := a.R
+	f := a.MustFn("(*DSAPrivateKey).Sign")
+	if f == nil {
+		return
+	}
+	var out ssa.Value
+	for _, r := range a.returnsOf(f) {
+		if len(r.Results) == 2 && isNilConst(r.Results[1]) {
+			out = r.Results[0]
+		}
+	}
+	if out == nil {
+		R.Viol(rule, "Sign|return", "Sign has a success return", a.C.Pos(f.Pos()), "not found")
+		return
+	}
+	size := ""
+	if sl, ok := out.(*ssa.Slice); ok {
+		if al, isAl := sl.X.(*ssa.Alloc); isAl {
+			size = typeName(al.Type())
+		}
+	}
+	if mk, ok := out.(*ssa.MakeSlice); ok {
+		size = "[" + a.C.Term(mk.Len) + "]byte"
+	}
+	R.Check(strings.Contains(size, "[40]byte"), rule, "Sign|size", "the signature is a fresh 40-byte buffer", a.C.Pos(f.Pos()), "it is "+a.C.Term(out)+" ("+size+")")
+	gotR, gotS, ncopy := false, false, 0
+	for _, b := range f.Blocks {
+		for _, in := range b.Instrs {
+			call, ok := in.(*ssa.Call)
+			if !ok {
+				continue
+			}
+			bi, isB := call.Call.Value.(*ssa.Builtin)
+			if !isB || bi.Name() != "copy" {
+				continue
+			}
+			dst, isS := call.Call.Args[0].(*ssa.Slice)
+			if !isS || dst.X != out || dst.High != nil || dst.Low == nil {
+				continue
+			}
+			ncopy++
+			src := a.C.Term(call.Call.Args[1])
+			low := a.C.Term(dst.Low)
+			isBytes := strings.HasPrefix(src, "(*math/big.Int).Bytes(crypto/dsa.Sign(")
+			if isBytes && strings.HasSuffix(src, ")#0)") && low == "(20 - len("+src+"))" {
+				gotR = true
+			}
+			if isBytes && strings.HasSuffix(src, ")#1)") && (low == "(40 - len("+src+"))" || low == "(len("+a.C.Term(out)+") - len("+src+"))") {
+				gotS = true
+			}
+		}
+	}
+	R.Check(gotR && gotS && ncopy == 2, rule, "Sign|fields", "r is right-aligned in bytes 0..19 and s in bytes 20..39 (each padded separately)", a.C.Pos(f.Pos()),
+		fmt.Sprintf("r field ok=%v, s field ok=%v, %d copies into the buffer", gotR, gotS, ncopy))
+	if v := a.MustFn("(*DSAPublicKey).Verify"); v != nil {
+		if c := a.uniqueCall(rule, v, "crypto/dsa.Verify"); c != nil {
+			rT, sT := a.C.Term(c.Call.Args[2]), a.C.Term(c.Call.Args[3])
+			R.Check(strings.Contains(rT, "$sig[:20]") && strings.Contains(sT, "$sig[20:40]"), rule, "Verify|fields", "Verify reads r from bytes 0..19 and s from bytes 20..39", a.C.InstrPos(c), "r = "+rT+", s = "+sT)
+		}
+	}
 }
